@@ -33,7 +33,7 @@ CHECKS = {
  "C13": ("calendar + cron matcher + zone offset lookup transcribed into integer TLA+ (Cron.tla), its arithmetic model-checked day by day 1970-2100; every recorded call of the real get_task_delay under a controlled clock judged by TLC (minute-exhaustive over DST/month-end/leap days, random instants 2015-2035, grammar-generated expressions, timedelta grid +-26h, 14 IANA zones)", "5/C13"),
  "C14": ("delay specified as a relation (DelayOK) over split instants; boundary lattice (second-of-minute x microsecond x T-now offsets around now, horizon, +-2 days) x zone spellings + random pairs, each real call judged by TLC", "5/C14"),
  "C15": ("scheduler loop model (poll rounds as the code's atomic blocks, look-ahead, in-flight sends, faults; 12-unit minute) model-checked over all start offsets x one-shot target times x fault placements; SchProps clauses evaluated by TLC on traces of the real run_scheduler_loop on the virtual clock (real 60 s minutes, start offsets at ms resolution, 2-30 virtual minutes, dynamic add/remove, failing sources/kicks)", "5/C15"),
- "C16": ("on_ready stage counters (pre_send/cancel/kick payload/post_send) on the same scheduler traces + LabelScheduleSource entry-table model (LabelSrc.tla) model-checked over all entry lists <= 3-4 and firing orders; listing/removal clauses (LblProps) on the real source", "5/C16"),
+ "C16": ("on_ready stage counters (pre_send/cancel/kick payload/post_send) on the same scheduler traces + LabelScheduleSource entry-table model (LabelSrc.tla) model-checked over all entry lists <= 3-4 (also with shared / alternating explicit schedule ids), firing orders and adoption of a foreign task; listing/removal clauses (LblProps) on the real source", "5/C16"),
  "C17": ("process-manager state machine (sleep / drain / scan, action queue, two injection points per tick) model-checked over all histories up to the tick bound; C17 clauses (join before replacement start, slot count, replaced within two ticks) on traces of the real ProcessManager.start() with OS-faithful fakes", "5/C17"),
  "C18": ("same model; budget (exit -1 exactly when max_fails unexpected exits were handled), reload-all (every slot once per tick) and shutdown (live workers signalled once, nothing else, success status) clauses on real traces", "5/C18"),
  "C19": ("encoder walk with the SEEN-as-current-path rule and the decoder's class/argument decision table transcribed in ExcCodec.tla (unfolding model-checked over all 3-node graphs); every link shape over <= 2-3 nodes x class kinds x argument kinds x {JSON text, JSON dict, pickle} built as real exception objects, round-tripped through TaskiqResult, projected back and judged by TLC", "5/C19"),
